@@ -113,6 +113,12 @@ def configs(tier):
                                 out.append(dict(keep=k, cyc=c, size=s, flush=flush, reuse=reuse, period=1,
                                                 restart=restart, mid=mid, nticks=nticks, logs=0 if alone else 1,
                                                 sparse=dict(rule=rule, writes=writes)))
+    # I/O-fault extension: exactly one os.rename of the run fails (EACCES), at every position.
+    for keep in ((2, 3) if not thorough else (1, 2, 3)):
+        for size in ((0,) if not thorough else (0, H + 7)):
+            for pos in range(1, keep * (nticks + 2) + 1):
+                out.append(dict(keep=keep, cyc=0.5, size=size, flush=1.0, reuse=False, period=1, restart="none", mid=0,
+                                nticks=nticks, logs=1, sparse=None, fail_rename=pos))
     # Queue rules: a streak / deck log on its own share; a producer queues one element (the send
     # number) every tick before the logger runs, so the log writes a record at every send.
     for rule in QUEUE_RULES:
@@ -138,6 +144,8 @@ def cfg_str(c):
         s += " restart=%s@%d" % (c["restart"], c["mid"])
     if c.get("logs", 1) != 1:
         s += " logs=%d" % c["logs"]
+    if c.get("fail_rename"):
+        s += " rename#%d fails" % c["fail_rename"]
     if c.get("sparse"):
         if c["sparse"]["writes"] == "every":
             s += " queue=%s,one element per tick" % c["sparse"]["rule"]
@@ -289,6 +297,8 @@ class Run:
         from mc import vfs
         from ioflo.base import globaling as g
         self.fs = vfs.VFS(snapshots=True)
+        if self.cfg.get("fail_rename"):
+            self.fs.fail_renames = {self.cfg["fail_rename"]}
         vfs.install(self.fs)
         self.schedule = self.plan()
         w = self.make_world()
@@ -408,7 +418,10 @@ class Run:
                                "newest file of %s holds %r, records since the last rotation are %r (%s, %s)"
                                % (ls.base, got, since, cfg_str(c), where), dict(files=files))
                 return True
+            faulted = any(e[0] == "mark" and e[1][0] == "rename-failed" for e in fs.journal)
             for k in range(1, min(len(ls.stretches), c["keep"]) + 1):
+                if faulted:
+                    break          # after an aborted rotation the slots no longer map 1:1 to rotations
                 if contents[k] != ls.stretches[-k]:
                     self.violation("rotation-copy", where,
                                    "copy %02d of %s holds %r, the stretch rotated %d rotation(s) ago was %r (%s, %s)"
